@@ -11,11 +11,9 @@
   mandatory or optional; workers, selections (hence cumulative workers), static / delayed /
   dynamic requirements; work amounts; the one- and two-task constraints, the optional-task rules,
   resource unavailability, same / distinct workers; the six connectives and optional constraints
-  over anything; a declared or free horizon.  The hypotheses `InCore` name exactly the usages
-  excluded (each one is a recorded finding with a witness): an optional task with a positive
-  release date (F7) or a work amount (F26), or delayed requirements on optional tasks (F19);
-  TasksDontOverlap on two zero-length tasks at one instant (xor); DistinctWorkers over more than two
-  common workers (F6).  Elements with auxiliary variables (groups, contiguity, distance, non-delay,
+  over anything; a declared or free horizon.  The hypotheses `InCore` / `CoreMeaning`
+  name exactly the usages excluded (each one is a recorded finding with a witness):
+  TasksDontOverlap on two zero-length tasks at one instant (xor, F36); DistinctWorkers (F6).  Elements with auxiliary variables (groups, contiguity, distance, non-delay,
   ScheduleN, WorkLoad, buffers, indicators) are covered by the exact ENC correspondence and the
   completeness search of the check, not by this theorem yet.
 -/
@@ -42,11 +40,6 @@ structure TaskValid (σ : Sched) (t : Task) : Prop where
   durOK : t.DurOK (σ.durOfTask t)
   release : ∀ r, t.release = some r → r ≤ σ.start t.name
   deadline : ∀ d, t.due = some d → t.deadline = true → σ.end_ t.name ≤ d
-
-/-- usages of optional tasks outside the core fragment -/
-structure TaskInCore (t : Task) : Prop where
-  no_release : t.optional = true → ∀ r, t.release = some r → r ≤ 0           -- F7
-  due_nonneg : t.optional = true → ∀ d, t.due = some d → 0 ≤ d
 
 theorem envOf_tStart (st : State) (σ : Sched) (t : Task) (h : st.findTask t.name = some t) :
     (envOf st σ).i (.tStart t.name) = tStartOf σ t := by simp [envOf, h]
@@ -106,81 +99,77 @@ theorem baseList_complete (st : State) (σ : Sched) (t : Task) (hf : st.findTask
             simp [Fml.eval, Term.eval, Task.dVar, numT, e3]
             exact hok.2.1 m rfl
 
-/-- **C05 (tasks).** The timing assertions of every task, and its `end ≤ horizon`, hold under the
-    witness interpretation of a valid schedule. -/
+/-- release date and deadline of a scheduled task hold under the witness -/
+theorem releaseDue_complete (st : State) (σ : Sched) (t : Task) (hf : st.findTask t.name = some t)
+    (hs : σ.isSched t = true) (hv : TaskValid σ t) : Sat (envOf st σ) t.releaseDue := by
+  have e1 := envOf_tStart st σ t hf
+  have e2 := envOf_tEnd st σ t hf
+  simp only [tStartOf, tEndOf, hs, if_true] at e1 e2
+  unfold Task.releaseDue
+  rw [Sat.append]
+  constructor
+  · cases hr : t.release with
+    | none => simp [Sat]
+    | some r =>
+        by_cases hp : r > 0
+        · simp only [hp, if_true, Sat, List.mem_singleton, forall_eq]
+          simp only [Fml.eval, Term.eval, Task.sVar, numT, e1]
+          exact hv.release r hr
+        · simp [hp, Sat]
+  · cases hd : t.due with
+    | none => simp [Sat]
+    | some d =>
+        by_cases hdl : t.deadline = true
+        · simp only [hdl, if_true, Sat, List.mem_singleton, forall_eq]
+          simp only [Fml.eval, Term.eval, Task.eVar, numT, e2]
+          exact hv.deadline d hd hdl
+        · simp [hdl, Sat]
+
+/-- **C05 (tasks).** The assertions of every task (release date, deadline, type-specific timing, or
+    the parking of an unscheduled optional task), and its `end ≤ horizon`, hold under the witness
+    interpretation of a valid schedule. -/
 theorem task_complete (st : State) (σ : Sched) (t : Task) (hf : st.findTask t.name = some t)
-    (hcore : TaskInCore t) (hhor : 0 ≤ σ.horizon)
-    (hv : σ.isSched t = true → TaskValid σ t) :
+    (hhor : 0 ≤ σ.horizon) (hv : σ.isSched t = true → TaskValid σ t) :
     Sat (envOf st σ) (t.initAsserts ++ [t.horizonFml]) := by
   have e1 := envOf_tStart st σ t hf
   have e2 := envOf_tEnd st σ t hf
   have e3 := envOf_tDur st σ t hf
+  have hguard : σ.isSched t = true → Sat (envOf st σ) t.guarded := by
+    intro hs
+    unfold Task.guarded
+    rw [Sat.append]
+    exact ⟨releaseDue_complete st σ t hf hs (hv hs), baseList_complete st σ t hf hs (hv hs)⟩
   rw [Sat.append]
   constructor
-  · unfold Task.initAsserts
-    rw [Sat.append]
-    constructor
-    · -- release date and deadline
-      unfold Task.releaseDue
-      rw [Sat.append]
+  · unfold Task.initAsserts Task.setAssertions
+    by_cases hopt : t.optional = true
+    · simp only [hopt, if_true, Sat, List.mem_singleton, forall_eq, Fml.eval]
+      have hb : (envOf st σ).b (.sched t.name) = σ.sched t.name := rfl
+      rw [hb]
       constructor
-      · cases hr : t.release with
-        | none => simp [Sat]
-        | some r =>
-            by_cases hp : r > 0
-            · simp only [hp, if_true, Sat, List.mem_singleton, forall_eq]
-              simp only [Fml.eval, Term.eval, Task.sVar, numT, e1, tStartOf]
-              by_cases hs : σ.isSched t = true
-              · simp only [hs, if_true]; exact (hv hs).release r hr
-              · have hopt : t.optional = true := by
-                  unfold Sched.isSched at hs; cases ho : t.optional <;> simp_all
-                have := hcore.no_release hopt r hr
-                omega
-            · simp [hp, Sat]
-      · cases hd : t.due with
-        | none => simp [Sat]
-        | some d =>
-            by_cases hdl : t.deadline = true
-            · simp only [hdl, if_true, Sat, List.mem_singleton, forall_eq]
-              simp only [Fml.eval, Term.eval, Task.eVar, numT, e2, tEndOf]
-              by_cases hs : σ.isSched t = true
-              · simp only [hs, if_true]; exact (hv hs).deadline d hd hdl
-              · have hopt : t.optional = true := by
-                  unfold Sched.isSched at hs; cases ho : t.optional <;> simp_all
-                have := hcore.due_nonneg hopt d hd
-                simp only [hs, Bool.false_eq_true, if_false, Task.pastPoint]
-                omega
-            · simp [hdl, Sat]
-    · -- the type-specific assertions
-      unfold Task.setAssertions
-      by_cases hopt : t.optional = true
-      · simp only [hopt, if_true, Sat, List.mem_singleton, forall_eq, Fml.eval]
-        have hb : (envOf st σ).b (.sched t.name) = σ.sched t.name := rfl
-        rw [hb]
-        constructor
-        · intro hsch
-          have hs : σ.isSched t = true := by simp [Sched.isSched, hsch]
-          rw [evalAll_eq_Sat]
-          exact baseList_complete st σ t hf hs (hv hs)
-        · intro hsch
-          have hs : σ.isSched t = false := by
-            unfold Sched.isSched; simp [hopt]; cases hh : σ.sched t.name <;> simp_all
-          unfold Task.notScheduled
-          simp only [Fml.eval]
-          rw [evalAll_iff]
-          intro a ha
-          simp only [List.mem_append, List.mem_cons, List.mem_singleton, List.not_mem_nil, or_false] at ha
-          rcases ha with (rfl | rfl) | ha
-          · simp [Fml.eval, Term.eval, Task.sVar, numT, e1, tStartOf, hs]
-          · simp [Fml.eval, Term.eval, Task.eVar, numT, e2, tEndOf, hs]
-          · by_cases hvv : t.isVar = true
-            · simp only [hvv, if_true, List.mem_singleton] at ha
-              subst ha
-              simp [Fml.eval, Term.eval, Task.dVar, numT, e3, tDurOf, hs]
-            · simp [hvv] at ha
-      · have hs : σ.isSched t = true := by unfold Sched.isSched; cases ho : t.optional <;> simp_all
-        simp only [hopt, Bool.false_eq_true, if_false]
-        exact baseList_complete st σ t hf hs (hv hs)
+      · intro hsch
+        have hs : σ.isSched t = true := by simp [Sched.isSched, hsch]
+        rw [evalAll_eq_Sat]
+        exact hguard hs
+      · intro hsch
+        have hs : σ.isSched t = false := by
+          unfold Sched.isSched; simp [hopt]; cases hh : σ.sched t.name <;> simp_all
+        unfold Task.notScheduled
+        simp only [Fml.eval]
+        rw [evalAll_iff]
+        intro a ha
+        simp only [List.mem_append, List.mem_cons, List.mem_singleton, List.not_mem_nil, or_false] at ha
+        rcases ha with (rfl | rfl) | ha
+        · simp [Fml.eval, Term.eval, Task.sVar, numT, e1, tStartOf, hs]
+        · simp [Fml.eval, Term.eval, Task.eVar, numT, e2, tEndOf, hs]
+        · by_cases hvv : t.isVar = true
+          · simp only [hvv, if_true, List.mem_singleton] at ha
+            subst ha
+            simp [Fml.eval, Term.eval, Task.dVar, numT, e3, tDurOf, hs]
+          · simp [hvv] at ha
+    · have hs : σ.isSched t = true := by unfold Sched.isSched; cases ho : t.optional <;> simp_all
+      simp only [hopt, Bool.false_eq_true, if_false]
+      exact hguard hs
   · simp only [Sat, List.mem_singleton, forall_eq, Task.horizonFml, Fml.eval, Term.eval, Task.eVar, e2, tEndOf]
     have : (envOf st σ).i .horizon = σ.horizon := rfl
     rw [this]
@@ -535,7 +524,6 @@ theorem noOverlapPairs_complete (ρ : Env) (w : String) (l : List (String × Boo
 structure InCore (st : State) : Prop where
   names : NamesOK st
   reqs : ReqsOK st
-  tasks : ∀ t ∈ st.tasks, TaskInCore t ∧ (t.optional = true → t.work ≤ 0)
   constrs : ∀ c ∈ st.constrs, c.operand = false →
     c.body.inCore = true ∧ c.body.direct = false ∧ ∀ t ∈ c.body.coreTasks, st.findTask t.name = some t
   no_indicators : st.indicators = []
@@ -551,7 +539,8 @@ structure Valid (st : State) (σ : Sched) : Prop where
   counts : ∀ t ∈ st.tasks, ∀ s rs, ReqEvent.viaSelect t.name s rs true ∈ st.eventsOf t.name →
     CountOK s.kind (σ.nSelected s) s.n
   no_overlap : ∀ w ∈ st.workers, (st.busyOf w.name).Pairwise (Disjoint2 (envOf st σ) w.name)
-  work : ∀ t ∈ st.tasks, 0 < t.work → workTerms st t ≠ [] → t.work ≤ Term.evalSum (envOf st σ) (workTerms st t)
+  work : ∀ t ∈ st.tasks, 0 < t.work → workTerms st t ≠ [] → σ.isSched t = true →
+    t.work ≤ Term.evalSum (envOf st σ) (workTerms st t)
   constrs : ∀ c ∈ st.constrs, c.operand = false → (c.optional = true → σ.applied c.id = true) → CoreMeaning st σ c.body
 
 /-- **C05 (completeness, core fragment).** The interpretation that corresponds to a valid schedule
@@ -563,7 +552,7 @@ theorem C05_complete_core (cfg : Config) (st : State) (σ : Sched) (hcore : InCo
   · -- task assertions and end ≤ horizon
     obtain ⟨t, ht, h1⟩ := h
     have hf := hcore.names t ht
-    have hT := task_complete st σ t hf (hcore.tasks t ht).1 hv.horizon_nonneg (hv.tasks t ht)
+    have hT := task_complete st σ t hf hv.horizon_nonneg (hv.tasks t ht)
     rcases h1 with h1 | h1
     · unfold State.taskAsserts at h1
       rcases List.mem_append.1 h1 with h2 | h2
@@ -597,8 +586,16 @@ theorem C05_complete_core (cfg : Config) (st : State) (σ : Sched) (hcore : InCo
         subst h1
         have hne : workTerms st t ≠ [] := by
           intro hh; rw [hh] at he; simp at he
-        have := hv.work t ht hw hne
-        simpa [Fml.eval, Term.eval, numT] using this
+        by_cases ho : t.optional = true
+        · simp only [ho, if_true, Fml.eval]
+          intro hsch
+          have hsch' : σ.sched t.name = true := hsch
+          have hs : σ.isSched t = true := by simp [Sched.isSched, hsch']
+          have := hv.work t ht hw hne hs
+          simpa [Term.eval, numT] using this
+        · have hs : σ.isSched t = true := by unfold Sched.isSched; cases hh : t.optional <;> simp_all
+          have := hv.work t ht hw hne hs
+          simpa [ho, Fml.eval, Term.eval, numT] using this
     · simp [hw] at h1
   · obtain ⟨b, hb, _⟩ := h
     rw [hcore.no_buffers] at hb
